@@ -63,6 +63,8 @@ func VerifErrClass(err error) string {
 		return "corrupt"
 	case err.Error() == "counter name too long":
 		return "toolong"
+	case err.Error() == "counter name empty":
+		return "empty"
 	}
 	return "other"
 }
